@@ -469,7 +469,8 @@ def run_check(mod, tier, verif_seed, workers=None, budget_scale=None):
         print('HARNESS-ERROR (%d):' % len(harness_errors))
         for h in harness_errors[:3]:
             print(h)
-        return 2
+        # a violation that was found, minimised and written stands on its own replay file
+        return 1 if n_viol else 2
     if nondet:
         r = nondet[0]
         print('HARNESS-NONDETERMINISM run %s/%d seed=%d digests=%s' % (
